@@ -1,0 +1,68 @@
+//! Verification hooks (compiled only with `--cfg eyeball_verif`).
+//!
+//! A thread-local hook is called after every receive operation of the
+//! subscriber streams (`recv()` becoming ready, each `try_recv()`), with the
+//! kind of its result. A test director can perform operations on the
+//! `ObservableVector` from inside the hook and thereby place them between two
+//! receive operations of one `poll_next`, deterministically. Without the cfg
+//! flag none of this exists.
+
+use std::cell::RefCell;
+
+use tokio::sync::broadcast::error::{RecvError, TryRecvError};
+
+/// What a receive operation answered.
+#[derive(Clone, Copy, Debug, PartialEq, Eq, Hash)]
+pub enum RecvKind {
+    /// A message.
+    Ok,
+    /// Nothing there (only `try_recv`).
+    Empty,
+    /// The channel is closed and drained.
+    Closed,
+    /// The receiver lagged; its cursor was moved to the oldest retained
+    /// message.
+    Lagged,
+}
+
+type Hook = Box<dyn FnMut(RecvKind)>;
+
+thread_local! {
+    static HOOK: RefCell<Option<Hook>> = RefCell::new(None);
+}
+
+/// Install (or remove) this thread's receive hook.
+pub fn set_recv_hook(hook: Option<Hook>) {
+    HOOK.with(|h| *h.borrow_mut() = hook);
+}
+
+fn call(kind: RecvKind) {
+    // The hook is taken out while it runs, so that it may use the library.
+    let hook = HOOK.with(|h| h.borrow_mut().take());
+    if let Some(mut hook) = hook {
+        hook(kind);
+        HOOK.with(|h| {
+            let mut slot = h.borrow_mut();
+            if slot.is_none() {
+                *slot = Some(hook);
+            }
+        });
+    }
+}
+
+pub(crate) fn after_recv<T>(result: &Result<T, RecvError>) {
+    call(match result {
+        Ok(_) => RecvKind::Ok,
+        Err(RecvError::Closed) => RecvKind::Closed,
+        Err(RecvError::Lagged(_)) => RecvKind::Lagged,
+    });
+}
+
+pub(crate) fn after_try_recv<T>(result: &Result<T, TryRecvError>) {
+    call(match result {
+        Ok(_) => RecvKind::Ok,
+        Err(TryRecvError::Empty) => RecvKind::Empty,
+        Err(TryRecvError::Closed) => RecvKind::Closed,
+        Err(TryRecvError::Lagged(_)) => RecvKind::Lagged,
+    });
+}
